@@ -101,7 +101,7 @@ def run(total, ops):
 
 def gen(rng):
     """a script that ends with exactly one pass that sees the pill"""
-    t = rng.choice([0, 0, 1, 2, 3, 5, 8])
+    t = rng.choice([0, 0, 1, 2, 3, 5, 8]) if rng.random() < .93 else rng.choice([65535, 65536, 70000, 2 ** 32 + 5])     # (counts past 16 / 32 bits stay exact)
     known = rng.random() < .5
     ops, left, total_given = [], t, known
     for _ in range(rng.randint(0, 10)):
